@@ -78,6 +78,12 @@ def build_all(clean=False):
             translator['utils'] = json.loads(r.stdout[r.stdout.index('{'):])
         except Exception:
             translator['utils'] = {'functions': {'*': 'failed: translator crashed'}, 'output': r.stdout[-2000:]}
+        r = run(['/venv/bin/python', os.path.join(VERIF, 'gen', 'translate_seg.py'), REPO, os.path.join(BUILD, 'gen')],
+                timeout=300)       # make_segment / find_mode / is_kanji ... of segno/encoder.py (SrcMode.v, SrcSegMake.v)
+        try:
+            translator['seg'] = json.loads(r.stdout[r.stdout.index('{'):])
+        except Exception:
+            translator['seg'] = {'functions': {'*': 'failed: translator crashed'}, 'output': r.stdout[-2000:]}
         srcs = coq_sources()
         listfile = os.path.join(BUILD, '.filelist')
         old = open(listfile).read() if os.path.exists(listfile) else ''
